@@ -169,14 +169,58 @@ def Store.find (st : Store) (ident : Str) : Option Resource :=
     | some a => st.find? (·.name == a.name)
     | none => none
 
+/-- value of one character of the standard base64 alphabet -/
+def b64Val (c : Char) : Option Nat :=
+  if 'A' ≤ c && c ≤ 'Z' then some (c.toNat - 65)
+  else if 'a' ≤ c && c ≤ 'z' then some (c.toNat - 97 + 26)
+  else if '0' ≤ c && c ≤ '9' then some (c.toNat - 48 + 52)
+  else if c == '+' then some 62
+  else if c == '/' then some 63
+  else none
+
+/-- canonical padded base64 (`BASE64_STANDARD.decode`; the strictness about non-zero trailing bits is not
+    modelled: the harness supplies encodings of byte strings) -/
+def b64Decode : Str → Option (List UInt8)
+  | [] => some []
+  | a :: b :: c :: d :: rest =>
+    match b64Val a, b64Val b with
+    | some x, some y =>
+      let b0 := ((x * 4 + y / 16) % 256).toUInt8
+      if c == '=' && d == '=' then (if rest.isEmpty then some [b0] else none)
+      else match b64Val c with
+        | none => none
+        | some z =>
+          let b1 := (((y % 16) * 16 + z / 4) % 256).toUInt8
+          if d == '=' then (if rest.isEmpty then some [b0, b1] else none)
+          else match b64Val d with
+            | none => none
+            | some w =>
+              let b2 := (((z % 4) * 64 + w) % 256).toUInt8
+              (b64Decode rest).map (fun t => b0 :: b1 :: b2 :: t)
+    | _, _ => none
+  | _ => none
+
+/-- `MimeType::is_textual` -/
+def textualKinds : List String :=
+  ["Mime(MimeType::ApplicationJavascript)", "Mime(MimeType::FnJavascript)", "Mime(MimeType::ApplicationJson)",
+   "Mime(MimeType::TextCss)", "Mime(MimeType::TextPlain)", "Mime(MimeType::TextHtml)", "Mime(MimeType::TextXml)"]
+
+/-- the content check of `add_resource`: a MIME resource carries base64, and text when its kind is textual -/
+def contentOk (r : Resource) : Bool :=
+  if r.kind == "Template" then true else
+  match b64Decode r.content with
+  | none => false
+  | some bs => !textualKinds.contains r.kind || (String.fromUTF8? (ByteArray.mk bs.toArray)).isSome
+
 /-- `add_resource`: rejected when the name or an alias is already a name or an alias (nothing is
-    registered then), or when dependencies are declared for a kind that does not support them.
-    (base64 / UTF-8 validity of the content is an external check; the harness supplies valid content) -/
+    registered then), when dependencies are declared for a kind that does not support them, or when the
+    content is not base64 (of UTF-8 text, for textual kinds). -/
 def Store.add (st : Store) (r : Resource) : Store :=
   let taken (ident : Str) : Bool := st.any (fun x => x.name == ident || x.aliases.contains ident)
   let depsOk := r.deps.isEmpty || r.kind == "Template" ||
     r.kind == "Mime(MimeType::ApplicationJavascript)" || r.kind == "Mime(MimeType::FnJavascript)"
   if !depsOk then st
+  else if !contentOk r then st
   else if (r.name :: r.aliases).any taken then st
   else st ++ [r]
 
